@@ -368,28 +368,53 @@ impl<K: CacheKey + 'static> DiskCache<K> {
             .await
             .map_err(|_| CacheError::Backend("Failed to acquire I/O semaphore".to_string()))?;
 
-        // Write to temporary file first for atomicity
-        let temp_path = path.with_extension("tmp");
-
         // Ensure parent directory exists
-        if let Some(parent) = temp_path.parent() {
+        if let Some(parent) = path.parent() {
             fs::create_dir_all(parent).map_err(CacheError::Io)?;
         }
 
-        {
-            vp_sched!("disk.write.open");
-            let mut file = OpenOptions::new()
+        // Write to temporary file first for atomicity. The temporary name is the
+        // full file name plus a unique suffix (replacing the extension would make
+        // "x.tmp" the temporary file of "x.y" and of "x"), and the file is opened
+        // with create_new so that it can never be another key's data file.
+        vp_sched!("disk.write.open");
+        let (file, temp_path) = loop {
+            let candidate = Self::temp_path_for(path);
+            match OpenOptions::new()
                 .write(true)
-                .create(true)
-                .truncate(true)
-                .open(&temp_path)
-                .map_err(CacheError::Io)?;
+                .create_new(true)
+                .open(&candidate)
+            {
+                Ok(file) => break (file, candidate),
+                Err(e) if e.kind() == std::io::ErrorKind::AlreadyExists => {}
+                Err(e) => return Err(CacheError::Io(e)),
+            }
+        };
 
+        let header = encode_file_header(expires_at);
+        if let Err(e) = Self::write_and_rename(file, &temp_path, path, &header, data) {
+            // Temporary names are unique: do not leave the file behind
+            let _ = fs::remove_file(&temp_path);
+            return Err(CacheError::Io(e));
+        }
+
+        Ok(())
+    }
+
+    /// Write `header` and `data` through `file` (opened at `temp_path`), sync it and
+    /// move it to `path`
+    fn write_and_rename(
+        mut file: File,
+        temp_path: &Path,
+        path: &Path,
+        header: &[u8],
+        data: &[u8],
+    ) -> std::io::Result<()> {
+        {
             vp_sched!("disk.write.data");
-            file.write_all(&encode_file_header(expires_at))
-                .map_err(CacheError::Io)?;
-            file.write_all(data).map_err(CacheError::Io)?;
-            file.flush().map_err(CacheError::Io)?;
+            file.write_all(header)?;
+            file.write_all(data)?;
+            file.flush()?;
 
             // Force data to disk for durability in cache operations
             #[cfg(unix)]
@@ -403,12 +428,25 @@ impl<K: CacheKey + 'static> DiskCache<K> {
                 }
             }
         }
+        drop(file);
 
         // Atomic rename
         vp_sched!("disk.write.rename");
-        fs::rename(&temp_path, path).map_err(CacheError::Io)?;
+        fs::rename(temp_path, path)
+    }
 
-        Ok(())
+    /// Unique temporary file name next to `path`, ending in ".tmp" (such files
+    /// are skipped by the directory scan in `size()`)
+    fn temp_path_for(path: &Path) -> PathBuf {
+        static TEMP_SEQ: AtomicU64 = AtomicU64::new(0);
+
+        let seq = TEMP_SEQ.fetch_add(1, Ordering::Relaxed);
+        let mut name = path
+            .file_name()
+            .map(std::ffi::OsStr::to_os_string)
+            .unwrap_or_default();
+        name.push(format!(".{}.{seq}.tmp", std::process::id()));
+        path.with_file_name(name)
     }
 
     /// Read expiry and data from disk file
@@ -953,6 +991,47 @@ mod tests {
             None
         );
         assert!(!cache.remove(&key).await.expect("Operation should succeed"));
+    }
+
+    #[tokio::test]
+    async fn test_disk_cache_temp_file_does_not_clobber_other_key() {
+        let temp_dir = TempDir::new().expect("Operation should succeed");
+        let config = DiskCacheConfig::new(temp_dir.path())
+            .with_subdirectories(false, 0)
+            .with_max_files(100);
+        let cache = DiskCache::new(config).expect("Operation should succeed");
+
+        // With `path.with_extension("tmp")` the data file of key_a was the temporary file of key_b
+        let key_a = RibbitKey::new("x.tmp", "us");
+        let key_b = RibbitKey::new("x.y", "us");
+        assert_eq!(
+            std::path::Path::new(key_b.as_cache_key()).with_extension("tmp"),
+            std::path::Path::new(key_a.as_cache_key())
+        );
+
+        cache
+            .put(key_a.clone(), Bytes::from("one"))
+            .await
+            .expect("Operation should succeed");
+        cache
+            .put(key_b.clone(), Bytes::from("two"))
+            .await
+            .expect("Operation should succeed");
+
+        assert_eq!(
+            cache.get(&key_a).await.expect("Operation should succeed"),
+            Some(Bytes::from("one"))
+        );
+        assert_eq!(
+            cache.get(&key_b).await.expect("Operation should succeed"),
+            Some(Bytes::from("two"))
+        );
+
+        // No temporary file is left behind
+        let file_count = fs::read_dir(temp_dir.path())
+            .expect("Operation should succeed")
+            .count();
+        assert_eq!(file_count, 2);
     }
 
     #[tokio::test]
